@@ -318,12 +318,19 @@ func runC04(p *Prog, r *Report) {
 	}
 	if c.release != nil {
 		isDec := func(in ssa.Instruction) bool {
+			// dropping the entry counts as lowering it: the delete is only reachable where the lowered count is zero
+			// (checked below)
+			if cc := CallCommonOf(in); cc != nil {
+				if bi, ok := cc.Value.(*ssa.Builtin); ok && bi.Name() == "delete" && mapFieldOf(cc.Args[0], c.typ, c.mapField) {
+					return true
+				}
+			}
 			mu, ok := in.(*ssa.MapUpdate)
 			if !ok || !mapFieldOf(mu.Map, c.typ, c.mapField) {
 				return false
 			}
 			e := BuildExpr(p, mu.Value, nil).String()
-			return strings.HasPrefix(e, "-(") && strings.Contains(e, "p2")
+			return strings.HasPrefix(e, "-(idx(") // connections[k] - <amount> (a parameter, or a captured variable of an inlined release)
 		}
 		ret := ReturnReachableAvoiding(c.release, nil, isDec, nil)
 		r.Paths++
